@@ -13,6 +13,7 @@ MANIFEST = {
  'design_ref': 'DESIGN.md §6 C05',
 }
 THEOREMS = ['C05.unescape_escape', 'C05.parse_format', 'C05.parse_total', 'C05.format_cached', 'C05.tagEscape_table_sep',
+            'C05.hostFields_total', 'C05.parseFull_total', 'C05.wf_of_wfd', 'C05.wfd_of_wf',
             'C05.tagEscape_table_ok']
 TRUSTED = ['Lean 4.33.0 kernel; axioms ⊆ {propext, Classical.choice, Quot.sound}',
            'harness/extract.py (SERVER_TAG_ESCAPE table → Gen/IrcMsgs.lean)',
@@ -36,8 +37,9 @@ def impl_parse(ircmsgs, line):
         return 'malformed', None
     except Exception as e:
         return 'crash\t' + type(e).__name__, None
-    return ('ok\t%s\t%s\t%s\t%s\t%s' % (wire.enc(m.prefix), wire.enc(m.command), wire.enc_list(m.args),
-                                        enc_tags(m.server_tags), wire.enc(str(m)))), m
+    return ('ok\t%s\t%s\t%s\t%s\t%s\t%s\t%s\t%s' % (wire.enc(m.prefix), wire.enc(m.command), wire.enc_list(m.args),
+                                        enc_tags(m.server_tags), wire.enc(str(m)),
+                                        wire.enc(m.nick), wire.enc(m.user), wire.enc(m.host))), m
 
 def time_ok(v):
     try:
@@ -199,24 +201,31 @@ def explore(ctx, n_wf, n_near, n_raw, n_esc, corpus_lines=()):
             return
         c = Case({'op': 'format', 'prefix': pfx, 'command': cmd, 'args': list(args), 'tags': tags},
                  impl=wire.enc(s), kind=kind, tags=('format', 'nargs%d' % min(len(args), 3)) + (('ftags',) if tags else ()))
-        if kind == 'wf':
-            # property oracle: parse(str(m)) has the same fields (empty tag value == no value)
-            out, m2 = impl_parse(ircmsgs, s)
-            canon = {k: (v if v else None) for k, v in tags.items()}
-            tv = tags.get('time')
-            if 'time' in tags and (not tv or not time_ok(tv)):
-                want_ok = False
-            else:
-                want_ok = True
-            if want_ok:
-                good = (m2 is not None and m2.prefix == pfx and m2.command == cmd and list(m2.args) == list(args)
-                        and dict(m2.server_tags) == canon and list(m2.server_tags) == list(canon))
-                c.oracle_ok = good
-                if not good:
-                    c.oracle_msg = 'parse(str(m)) != m: serialised %r parsed back as %s' % (s, out)
+        # property oracle (theorem parse_format on the implementation): whenever the Lean predicate
+        # WFD holds of these fields (asked from the driver below) and the real strptime accepts the
+        # time tag, parse(str(m)) must have the same fields (empty tag value == no value)
+        out, m2 = impl_parse(ircmsgs, s)
+        canon = {k: (v if v else None) for k, v in tags.items()}
+        good = (m2 is not None and m2.prefix == pfx and m2.command == cmd and list(m2.args) == list(args)
+                and dict(m2.server_tags) == canon and list(m2.server_tags) == list(canon))
+        rt_msg = '' if good else 'parse(str(m)) != m: serialised %r parsed back as %s' % (s, out)
         cases.append(c)
         lines.append('format\t%s\t%s\t%s\t%s' % (wire.enc(pfx), wire.enc(cmd), wire.enc_list(args), enc_tags(tags)))
         pend.append((c, lambda o: o))
+        w = Case({'op': 'wf', 'prefix': pfx, 'command': cmd, 'args': list(args), 'tags': tags}, impl=None, kind=kind)
+        def fill_wf(o, w=w, good=good, rt_msg=rt_msg, kind=kind):
+            f = o.split('\t')
+            need = wire.dec_opt(f[1]) if len(f) > 1 else None
+            lean_wf = (f[0] == '1') and (need is None or time_ok(need))
+            if lean_wf:
+                w.oracle_ok = good; w.oracle_msg = rt_msg
+                w.tags = ('WF',)
+            else:
+                w.tags = ('notWF',) + (('gen-says-wf',) if kind == 'wf' else ())
+            return None
+        cases.append(w)
+        lines.append('wf\t%s\t%s\t%s\t%s' % (wire.enc(pfx), wire.enc(cmd), wire.enc_list(args), enc_tags(tags)))
+        pend.append((w, fill_wf))
         add_parse(s, kind + '-reparse')
 
     def add_esc(v):
@@ -231,8 +240,36 @@ def explore(ctx, n_wf, n_near, n_raw, n_esc, corpus_lines=()):
         c = Case({'op': 'unesc', 'value': v}, impl=wire.enc(u2), kind='esc', tags=('unesc',))
         cases.append(c); lines.append('unesc\t' + wire.enc(v)); pend.append((c, lambda o: o))
 
+    def add_hostmask(p):
+        if not valid_unicode(p):
+            return
+        from supybot import ircutils
+        try:
+            isu = ircutils.isUserHostmask(p)
+            if isu:
+                n, u, h = ircutils.splitHostmask(p)
+            else:
+                n = u = h = p
+            out = '%d\t%s\t%s\t%s' % (1 if isu else 0, wire.enc(n), wire.enc(u), wire.enc(h)); ok = True; msg = ''
+        except AssertionError:
+            return
+        except Exception as e:
+            out = '%d\tcrash' % 1; ok = False; msg = 'splitHostmask(%r) raised %s although isUserHostmask accepts it' % (p, type(e).__name__)
+        c = Case({'op': 'hostmask', 'prefix': p}, impl=out, oracle_ok=ok, oracle_msg=msg, kind='hostmask',
+                 tags=('hostmask-user' if out.startswith('1') else 'hostmask-other',))
+        cases.append(c); lines.append('hostmask\t' + wire.enc(p)); pend.append((c, lambda o: o))
+
     for l in corpus_lines:
         add_parse(l, 'corpus')
+    for _ in range(n_esc):
+        if r.random() < 0.5:
+            hm = ''.join(r.choice(['a', 'b', '!', '!', '@', '@', '.', 'é', ' ', '\t', '\n', '\x1f', '\xa0', '中']) for _ in range(r.randint(0, 9)))
+        else:
+            part = lambda: ''.join(r.choice(['a', 'b', 'Z', '!', '@', '.', 'é', '中', '-']) for _ in range(r.randint(0, 4)))
+            hm = part() + '!' + part() + '@' + part()
+            if r.random() < 0.15:
+                i = r.randrange(len(hm)); hm = hm[:i] + r.choice([' ', '\t', '\n', '\xa0', '\x1f']) + hm[i:]
+        add_hostmask(hm + r.choice(['', '', '', '\n', '\n\n']))
     for _ in range(n_wf):
         add_fields(*gen_wf(r), kind='wf')
     for _ in range(n_near):
@@ -248,6 +285,8 @@ def fill_model(cases_lines_pend):
     outs = wire.run_driver(PROPERTY, lines)
     for (c, f), o in zip(pend, outs):
         c.model = f(o)
+        if o == 'bad-op':
+            c.model = 'bad-op'
     return cases
 
 def load_corpus():
